@@ -31,7 +31,10 @@ def random_script(rng, level, size, skip, mx, n):
     ssrcs = [1, 2, 3]
     pos = {}
     for s in ssrcs:
-        steps.append({"a": "bind", "s": s, "nack": s != 3 or rng.random() < 0.5})
+        b = {"a": "bind", "s": s, "nack": s != 3 or rng.random() < 0.5}
+        if level == "icpt" and rng.random() < 0.5:      # other shapes of the negotiated feedback list
+            b["fb"] = rng.choice(["plifirst", "nackfirst", "plionly", "other"])
+        steps.append(b)
         pos[s] = rng.choice([0, 65500, 32760, rng.randrange(65536)])
     pending = {s: [] for s in ssrcs}
     for _ in range(n):
